@@ -304,7 +304,8 @@ impl C06 {
             return c;
         }
         let mut r = Rng::new(run_seed(seed, "C06", run));
-        let cfg = gen_cfg(&mut r, &CfgProfile { frontends: ALL_FRONTENDS, otaa_pct: 15, boundary_counters_pct: 60, join_bias_pct: 20 });
+        let mut cfg = gen_cfg(&mut r, &CfgProfile { frontends: ALL_FRONTENDS, otaa_pct: 15, boundary_counters_pct: 60, join_bias_pct: 20 });
+        maybe_phy(&mut r, &mut cfg, 1, 8);
         let fe = cfg.frontend;
         let fault_pct = *r.pick(&[0u64, 20, 40, 70]);
         let n = r.range(2, 10) as usize;
